@@ -63,9 +63,35 @@ func (e *Exec) readFull(caller *frame, r Iface, n int) (Slice, Iface) {
 
 var zlibMagic = [2]byte{0x78, 0x9c}
 
+// zlibRunMagic marks the model's compact form: a run of n equal bytes is
+// "compressed" to header, length, the byte and the trailer (11 bytes), so that
+// highly compressible payloads are small on the wire in the model too (real
+// deflate reaches about 1000:1 on such runs).
+const zlibRunMagic = 0xda
+
 func (e *Exec) modelDeflate(data []Value) []Value {
 	tc := e.tc
 	n := len(data)
+	if n >= 64 {
+		// a short arbitrary prefix (a packet id, say) followed by a run of one
+		// constant byte to the end
+		last, ok := data[n-1].(*Term)
+		k := n
+		for ok && last.IsConst() && k > 0 {
+			if t, isT := data[k-1].(*Term); isT && t == last {
+				k--
+				continue
+			}
+			break
+		}
+		if ok && last.IsConst() && k <= 16 && n-k >= 64 {
+			out := []Value{tc.BV(uint64(zlibMagic[0]), 8), tc.BV(zlibRunMagic, 8),
+				tc.BV(uint64(n>>24)&0xff, 8), tc.BV(uint64(n>>16)&0xff, 8), tc.BV(uint64(n>>8)&0xff, 8), tc.BV(uint64(n)&0xff, 8),
+				tc.BV(uint64(k), 8)}
+			out = append(out, data[:k]...)
+			return append(out, last, tc.BV(0, 8), tc.BV(0, 8), tc.BV(0, 8), tc.BV(0, 8))
+		}
+	}
 	out := []Value{tc.BV(uint64(zlibMagic[0]), 8), tc.BV(uint64(zlibMagic[1]), 8),
 		tc.BV(uint64(n>>24)&0xff, 8), tc.BV(uint64(n>>16)&0xff, 8), tc.BV(uint64(n>>8)&0xff, 8), tc.BV(uint64(n)&0xff, 8)}
 	out = append(out, data...)
@@ -75,6 +101,8 @@ func (e *Exec) modelDeflate(data []Value) []Value {
 
 type zrState struct {
 	src                     Iface
+	run                     *Term   // compact form: after the prefix every byte is this one
+	prefix                  []Value // compact form: the bytes before the run
 	remaining               int
 	closed                  bool
 	trailerRead, trailerBad bool
@@ -308,6 +336,18 @@ func (eng *Engine) initStubs2() {
 		if n > st.remaining {
 			n = st.remaining
 		}
+		if st.run != nil {
+			for i := 0; i < n; i++ {
+				if len(st.prefix) > 0 {
+					p.c[i] = st.prefix[0]
+					st.prefix = st.prefix[1:]
+				} else {
+					p.c[i] = st.run
+				}
+			}
+			st.remaining -= n
+			return Tuple{tc.BV(uint64(n), 64), Iface{}}
+		}
 		got, err := e.readFull(caller, st.src, n)
 		if err.t != nil {
 			return Tuple{tc.BV(0, 64), e.sentinel("io", "ErrUnexpectedEOF")}
@@ -329,8 +369,12 @@ func (eng *Engine) initStubs2() {
 		if err.t != nil {
 			return Tuple{Iface{}, e.sentinel("io", "ErrUnexpectedEOF")}
 		}
+		isRun := tc.BAnd(tc.Eq(hdr.c[0].(*Term), tc.BV(uint64(zlibMagic[0]), 8)), tc.Eq(hdr.c[1].(*Term), tc.BV(zlibRunMagic, 8)))
 		okHdr := tc.BAnd(tc.Eq(hdr.c[0].(*Term), tc.BV(uint64(zlibMagic[0]), 8)), tc.Eq(hdr.c[1].(*Term), tc.BV(uint64(zlibMagic[1]), 8)))
-		if !e.Decide(okHdr) {
+		compact := false
+		if isRun != tc.False && e.Decide(isRun) {
+			compact = true
+		} else if !e.Decide(okHdr) {
 			return Tuple{Iface{}, e.sentinel("compress/zlib", "ErrHeader")}
 		}
 		l := tc.Concat(tc.Concat(hdr.c[2].(*Term), hdr.c[3].(*Term)), tc.Concat(hdr.c[4].(*Term), hdr.c[5].(*Term)))
@@ -339,6 +383,21 @@ func (eng *Engine) initStubs2() {
 			return Tuple{Iface{}, e.sentinel("compress/zlib", "ErrHeader")}
 		}
 		n := int(e.Concretize(l64, true, "inflated length"))
+		if compact {
+			kb, err := e.readFull(caller, src, 1)
+			if err.t != nil {
+				return Tuple{Iface{}, e.sentinel("io", "ErrUnexpectedEOF")}
+			}
+			k := int(e.Concretize(tc.ZExt(kb.c[0].(*Term), 56), true, "length"))
+			if k > 16 || k > n {
+				return Tuple{Iface{}, e.sentinel("compress/zlib", "ErrHeader")}
+			}
+			rest, err := e.readFull(caller, src, k+1)
+			if err.t != nil {
+				return Tuple{Iface{}, e.sentinel("io", "ErrUnexpectedEOF")}
+			}
+			return Tuple{Iface{t: zr, v: &zrState{src: src, remaining: n, prefix: append([]Value(nil), rest.c[:k]...), run: rest.c[k].(*Term)}}, Iface{}}
+		}
 		return Tuple{Iface{t: zr, v: &zrState{src: src, remaining: n}}, Iface{}}
 	}
 	// vp.Noise(n): n concrete pseudo-random bytes (xorshift32, the same sequence
@@ -369,8 +428,23 @@ func (eng *Engine) initStubs2() {
 		if len(in) < 10 {
 			return Tuple{Slice{}, tc.False}
 		}
-		ok := tc.BAnd(tc.Eq(in[0].(*Term), tc.BV(uint64(zlibMagic[0]), 8)), tc.Eq(in[1].(*Term), tc.BV(uint64(zlibMagic[1]), 8)))
 		l := tc.Concat(tc.Concat(in[2].(*Term), in[3].(*Term)), tc.Concat(in[4].(*Term), in[5].(*Term)))
+		if m1, isC := in[1].(*Term); isC && m1.IsConst() && m1.Const() == zlibRunMagic && len(in) >= 12 && l.IsConst() {
+			kt, _ := in[6].(*Term)
+			if kt != nil && kt.IsConst() && int(kt.Const()) <= 16 && len(in) == 12+int(kt.Const()) && uint64(kt.Const()) <= l.Const() {
+				k := int(kt.Const())
+				if e.Decide(tc.Eq(in[0].(*Term), tc.BV(uint64(zlibMagic[0]), 8))) {
+					out := make([]Value, l.Const())
+					copy(out, in[7:7+k])
+					for i := k; i < len(out); i++ {
+						out[i] = in[7+k]
+					}
+					return Tuple{e.newByteSlice(out), tc.True}
+				}
+			}
+			return Tuple{Slice{}, tc.False}
+		}
+		ok := tc.BAnd(tc.Eq(in[0].(*Term), tc.BV(uint64(zlibMagic[0]), 8)), tc.Eq(in[1].(*Term), tc.BV(uint64(zlibMagic[1]), 8)))
 		ok = tc.BAnd(ok, tc.Eq(l, tc.BV(uint64(len(in)-10), 32)))
 		if !e.Decide(ok) {
 			return Tuple{Slice{}, tc.False}
